@@ -354,7 +354,7 @@ package segment
 //@   assigns w.writer.writeOffset, w.writer.commitBuf, w.writer.crc, w.writer.indexStart, w.offsets, w.commitIdx, g_scanLast, g_scanSize,
 //@      w.writer.commitBuf[0:cap(w.writer.commitBuf)]
 //@   alloc_bound[C11.alloc-bound] ite(int(w.wf.size) < 32768, 32768, int(w.wf.size))
-//@   ensures[C02.choice] result == nil ==> (w.writer.writeOffset == 0 && len(av(w.offsets)) == 0)
+//@   ensures[C02.choice,C01.recovered-cursor-after-commit] result == nil ==> (w.writer.writeOffset == 0 && len(av(w.offsets)) == 0)
 //@      || (finalCommit != nil && w.writer.writeOffset == uint32(finalCommit.offset + 8) && len(av(w.offsets)) == finalCommit.offsetsLen)
 //@      || (finalCommit != nil && prevCommit != nil && w.writer.writeOffset == uint32(prevCommit.offset + 8) && len(av(w.offsets)) == prevCommit.offsetsLen)
 //@   ensures[C02.validated] result == nil && finalCommit != nil && w.writer.writeOffset == uint32(finalCommit.offset + 8) ==> crcOK(w, finalCommit)
